@@ -234,6 +234,11 @@ func (m *confModel) render(l layout) string {
 		order[i], order[j] = order[j], order[i]
 	}
 	for _, i := range order {
+		// a section with nothing in it, or only comments, in front of the next one (a distributor's template
+		// with everything commented out): what follows belongs to the section whose header comes last
+		if l.r.Intn(3) == 0 {
+			sb.WriteString("[" + []string{"logging", "appdefaults", "plugins", "dbmodules"}[l.r.Intn(4)] + "]\n" + []string{"", "# default = FILE:/var/log/krb5libs.log\n", "\n", " ; nothing here\n\n"}[l.r.Intn(4)])
+		}
 		sections[i]()
 		sb.WriteString(l.noise())
 	}
